@@ -22,12 +22,11 @@ CLAIMED = {
         "(membership iff + strictly increasing), incl. the None conventions of the wrappers and the k-way union for any "
         "number of arrays. Correspondence: impl (kernels rebuilt from the current .pyx) vs model on all pairs of subsets "
         "of a universe containing 0 and 2^32-1 and on random overlap patterns; oracle = Python set algebra on the real code.",
-        "The three two-array kernels are REGENERATED from set_operations.pyx on every run (tools/translate_pyx.py: checked reads "
+        "All four kernels (the k-way union included) are REGENERATED from set_operations.pyx on every run (tools/translate_pyx.py: checked reads "
         "and writes into the allocated buffer, loops as recursive functions whose termination Lean checks) and proved equal to "
         "the hand-written models for all operands (KernGenBridge.lean), so generated_*_exact are theorems about what the source "
-        "says now. Trusted: Lean kernel; the translator (Cython subset -> Lean; C ints in N with checked subtraction); the k-way "
-        "kernel model is hand-written (index loop = list merge is a theorem) and tied by correspondence; uint32 range and C int "
-        "pointer width are outside the model.",
+        "says now. Trusted: Lean kernel; the translator (Cython subset -> Lean; C ints in N with checked subtraction, a -1 sentinel in Z, fuel for `while 1`); "
+        "uint32 range and C int pointer width are outside the model.",
         "Lean 4 proof (translator-regenerated kernels = hand models; loop refinement by fun_induction + set algebra on sorted lists) + exhaustive small-scope correspondence of real, hand-written and regenerated kernels",
         "DESIGN.md §5 C08"),
     "C09": (
